@@ -522,12 +522,18 @@ def expected(l, qc, bits, prefer):
     q = expect_rnn(entry_for(qc, name, "Q" + cls), cfg, cls, bits)
     return None if q is None else ("Q" + cls, q, [])
   if k == "bidir":
+    # "The specified configuration will be used for both forward and backwards layer": each direction
+    # is a layer of its own (own name, class, use_bias, activation) converted with the wrapper's entry
     e = entry_for(qc, name, "QBidirectional")
-    inner = cfg["layer"]
-    q = expect_rnn(e, inner["config"], inner["class_name"], bits)
-    if q is None:
-      return None
-    return ("QBidirectional", {"__inner__": ("Q" + inner["class_name"], q)}, [])
+    sides = {}
+    for side in ("layer", "backward_layer"):
+      if side in cfg:
+        inner = cfg[side]
+        q = expect_rnn(e, inner["config"], inner["class_name"], bits)
+        if q is None:
+          return None
+        sides[side] = ("Q" + inner["class_name"], q)
+    return ("QBidirectional", {"__inner__": sides}, [])
   if k == "act":
     order = ["QAdaptiveActivation", "QActivation"] if prefer else ["QActivation", "QAdaptiveActivation"]
     for qk in order:
@@ -660,7 +666,11 @@ def run(run: core.Run, tier: str):
       "class key), per-name entries (p .3 per layer, 10% of them None), partial entries, activation "
       "strings / maps, 3% malformed entries; activation_bits in {2,3,4,6,8}; transfer_weights, "
       "prefer_qadaptiveactivation random; separate stream with enable_bn_folding on Conv2D/Depthwise+BN "
-      "models. non-trivial = distinct (model spec, dictionary, flags) whose conversion selected at "
+      "models; wrapper stream (own generator): Bidirectional with the backward direction derived / "
+      "explicit with its own name and the same or another use_bias, activation, class, units x the "
+      "wrapper addressed by class entry / name entry / name None / only entries under the wrapped "
+      "layers' names and classes / an entry without kernel_quantizer, each converted twice. "
+      "non-trivial = distinct (model spec, dictionary, flags) whose conversion selected at "
       "least one layer or raised")
 
   cases = []
@@ -676,6 +686,9 @@ def run(run: core.Run, tier: str):
              "prefer_qadaptiveactivation": False, "enable_bn_folding": True}
     cases.append(("fold", spec, gen_fold_qc(g, spec), flags))
   cases += fixed_cases()
+  n_bidir = len(cases)
+  cases += bidir_cases(run.seed, tier)
+  n_bidir = len(cases) - n_bidir
 
   results = []
   lines = []
@@ -690,6 +703,11 @@ def run(run: core.Run, tier: str):
         continue
       randomize_weights(model, [run.seed, ci, 12])
       res = execute(env, qu, model, qc, flags)
+      if stream == "bidir" and spec["bidir"][1] in ("class", "inner_only"):
+        # history: the same source model and dictionary converted a second time in the same process
+        # must give the same rewritten JSON and the same converted model
+        res2 = execute(env, qu, model, qc, flags)
+        res["repeat_same"] = all(res2.get(k) == res.get(k) for k in ("err", "captured", "qjm", "q_inner"))
       res.update({"stream": stream, "spec": spec, "qc": qc, "flags": flags, "ci": ci})
       lines.append({"op": "rewrite", "layers": res["src_layers"], "qc": qc,
                     "act_bits": str(flags["activation_bits"]),
@@ -700,7 +718,8 @@ def run(run: core.Run, tier: str):
 
   for res, line, o in zip(results, lines, outs):
     judge(run, res, line, o)
-  run.extra["streams"] = {"main": n_main, "fold": n_fold, "fixed": len(cases) - n_main - n_fold}
+  run.extra["streams"] = {"main": n_main, "fold": n_fold, "fixed": len(cases) - n_main - n_fold - n_bidir,
+                          "bidir": n_bidir}
 
 
 # ----------------------------------------------------------------------------------------------
@@ -749,6 +768,119 @@ def gen_fold_qc(g, spec):
   if g.p(0.5):
     qc["QActivation"] = g.ch(A_Q[:2])
   return qc
+
+
+# backward-layer variants x ways the dictionary addresses the wrapper: the lattice of the wrapper stream
+BIDIR_BACK = ["default", "same", "other_bias", "other_act", "other_class", "other_units"]
+BIDIR_SEL = ["class", "name"]
+BIDIR_UNSEL = [("same", "name_none"), ("other_class", "inner_only"), ("same", "no_kernel"), ("default", "inner_only")]
+
+
+def bidir_case(g, back, sel):
+  """one model around a Bidirectional wrapper.  `back`: how the backward direction is given (default =
+  derived by Keras from the forward layer; otherwise an explicit `backward_layer=` with its OWN name and
+  the same / another use_bias, activation, class, number of units).  `sel`: how the dictionary
+  addresses the wrapper (class entry / name entry beside a different class entry / name entry None /
+  only entries under the wrapped layers' names and classes / an entry without kernel_quantizer)."""
+  seq = g.p(0.6)
+  inner = g.rnn(seq)
+  merge = g.ch(["concat", "sum", "concat"])
+  b = {"t": "Bidirectional", "inner": inner, "kw": {"merge_mode": merge}}
+  if back != "default":
+    bw = copy.deepcopy(inner)
+    bw["kw"]["go_backwards"] = True
+    if back == "other_bias":
+      bw["kw"]["use_bias"] = not inner["kw"]["use_bias"]
+    elif back == "other_act":
+      bw["kw"]["activation"] = {"tanh": "relu", "relu": "sigmoid", "sigmoid": "tanh"}[inner["kw"]["activation"]]
+    elif back == "other_class":
+      bw["t"] = {"SimpleRNN": "LSTM", "LSTM": "GRU", "GRU": "SimpleRNN"}[inner["t"]]
+      bw["kw"].pop("recurrent_activation", None)
+      bw["kw"].pop("reset_after", None)
+      if bw["t"] == "GRU":
+        bw["kw"]["reset_after"] = False
+    elif back == "other_units":
+      bw["kw"]["units"] = inner["kw"]["units"] + 1
+      b["kw"]["merge_mode"] = "concat"
+    b["backward"] = bw
+  body = []
+  if g.p(0.3):
+    body.append(g.rnn(True))
+  body.append(b)
+  if seq and g.p(0.5):
+    # a second wrapper of the other form in the same model
+    b2 = {"t": "Bidirectional", "inner": g.rnn(g.p(0.5)), "kw": {"merge_mode": "concat"}}
+    if back == "default":
+      bw2 = copy.deepcopy(b2["inner"])
+      bw2["kw"]["go_backwards"] = True
+      b2["backward"] = bw2
+    body.append(b2)
+    seq = b2["inner"]["kw"]["return_sequences"]
+  if seq:
+    body.append(g.rnn(False) if g.p(0.5) else {"t": "Flatten", "kw": {}})
+  body.append(g.dense())
+  m = {"input": [4, 3], "body": body, "family": "bidir", "functional": g.p(0.5), "bidir": [back, sel]}
+  n_inner = sum((2 if "backward" in l else 1) for l in body if l["t"] == "Bidirectional")
+  it = iter(g.names(1 + len(body) + n_inner))
+  m["input_name"] = next(it)
+  for l in body:
+    l["name"] = next(it)
+    if l["t"] == "Bidirectional":
+      l["inner"]["name"] = next(it)
+      if "backward" in l:
+        l["backward"]["name"] = next(it)
+  # dictionary
+  qc = {}
+  wname = b["name"]
+  if sel in ("class", "name", "name_none"):
+    e = gen_entry(g, "Bidirectional", False)
+    e["kernel_quantizer"] = g.ch(W_Q[:3] + W_Q[6:7])
+    e.setdefault("recurrent_quantizer", g.ch(W_Q[:3]))
+    e.setdefault("bias_quantizer", g.ch(W_Q[:3]))       # so that bias-less directions show
+    qc["QBidirectional"] = e
+  if sel == "name":
+    e2 = gen_entry(g, "Bidirectional", False)
+    e2["kernel_quantizer"] = g.ch([q for q in W_Q[:3] if q != qc["QBidirectional"]["kernel_quantizer"]])
+    e2.setdefault("recurrent_quantizer", g.ch(W_Q[:3]))
+    e2["bias_quantizer"] = g.ch(W_Q[:3])
+    qc[wname] = e2
+  elif sel == "name_none":
+    qc[wname] = None
+  elif sel == "no_kernel":
+    qc[g.ch([wname, "QBidirectional"])] = {"recurrent_quantizer": g.ch(W_Q[:3]), "bias_quantizer": g.ch(W_Q[:3])}
+  # entries under the wrapped layers' own names and classes: they address no top-level layer of
+  # that name, and must not reach into the wrapper (with p .75 each; always for `inner_only`)
+  for l in body:
+    if l["t"] != "Bidirectional":
+      continue
+    for part in [l["inner"]] + ([l["backward"]] if "backward" in l else []):
+      if sel == "inner_only" or g.p(0.4):
+        qc.setdefault(part["name"], gen_entry(g, part["t"], False))
+      # the name Keras gives the live object
+      if g.p(0.2):
+        qc.setdefault(("forward_" if part is l["inner"] else "backward_") + part["name"],
+                      gen_entry(g, part["t"], False))
+      if sel == "inner_only" or g.p(0.4):
+        qc.setdefault("Q" + part["t"], gen_entry(g, part["t"], False))
+  if g.p(0.5):
+    qc["QDense"] = gen_entry(g, "Dense", False)
+  flags = {"activation_bits": int(g.ch([2, 3, 4, 6, 8])), "transfer_weights": g.p(0.6),
+           "prefer_qadaptiveactivation": False, "enable_bn_folding": False}
+  return ("bidir", m, qc, flags)
+
+
+def bidir_cases(seed, tier):
+  """the wrapper stream: every backward-layer variant x {class entry, name entry} selected, plus the
+  unselected forms; own generator, so the other streams do not move"""
+  g = Gen(np.random.default_rng([seed, 1210]))
+  out = []
+  for rep in range(1 if tier == "quick" else 4):
+    for back in BIDIR_BACK:
+      for sel in BIDIR_SEL:
+        out.append(bidir_case(g, back, sel))
+    for back, sel in BIDIR_UNSEL:
+      out.append(bidir_case(g, back, sel))
+  return out
 
 
 def fixed_cases():
@@ -910,7 +1042,20 @@ def execute(env, qu, model, qc, flags):
         same = len(a) == len(b) and all(x.shape == y.shape and np.array_equal(x, y) for x, y in zip(a, b))
         wc.append((type(bl).__name__, same, len(bl.trainable_weights), len(bl.non_trainable_weights)))
     res["weights_cmp"] = wc
+    # the live wrapped layers of every (Q)Bidirectional: with the default (derived) backward layer the
+    # JSON has no `backward_layer` entry, so only the runtime objects show what the backward direction is
+    res["src_inner"] = {bl.name: inner_view(bl) for bl in base.layers if hasattr(bl, "forward_layer")}
+    res["q_inner"] = {ql.name: inner_view(ql) for ql in qm.layers if hasattr(ql, "forward_layer")}
   return res
+
+
+def inner_view(wrapper):
+  out = {}
+  for side, x in (("layer", wrapper.forward_layer), ("backward_layer", wrapper.backward_layer)):
+    c = to_jsonable(x.get_config())
+    out[side] = {"class": type(x).__name__, "quant": {k: c.get(k, "<absent>") for k in QKEYS["rnn"]},
+                 "go_backwards": c.get("go_backwards"), "units": c.get("units")}
+  return out
 
 
 def sel_summary(src_layers, qc):
@@ -993,6 +1138,11 @@ def judge(run, res, line, o):
     if not res[k]:
       run.violate("not_modified", {"what": what}, detail, mirrored=False)
 
+  if res.get("repeat_same") is False:
+    run.violate("repeatable", {"what": "second conversion of the same model and dictionary differs"}, detail,
+                mirrored=False)
+  if "bidir" in spec:
+    run.count("bidir_back_%s_sel_%s" % tuple(spec["bidir"]))
   has_leaky_sel = any(c == "LeakyReLU" and how for c, n, how in sel)
   if res["err"] is not None:
     if wf:
@@ -1071,6 +1221,12 @@ def judge(run, res, line, o):
       elif ql != cls:
         run.violate("untouched", dict(lkey, changed="runtime class %s" % ql), ldet,
                     mirrored=mirrored)
+      elif cls == "Bidirectional":
+        sv, qv = res["src_inner"].get(cfg["name"], {}), res["q_inner"].get(cfg["name"], {})
+        for side in ("layer", "backward_layer"):
+          if sv.get(side) != qv.get(side):
+            run.violate("untouched", dict(lkey, changed="runtime %s" % side), dict(ldet, src=sv, got=qv),
+                        mirrored=mirrored)
       continue
     qcls, qvals, dels = exp
     run.count("clause_selected_" + kind_of(cls))
@@ -1079,6 +1235,26 @@ def judge(run, res, line, o):
       continue
     written = set(QKEYS[kind_of(cls)])
     check_quant(run, lkey, ldet, mirrored, qcls, cfg, a["config"], qj["config"], qvals, dels)
+    if cls == "Bidirectional":
+      # runtime: both live directions are the quantized class; a derived backward layer carries the
+      # quantizers of the forward layer it is derived from, reversed
+      sides = qvals["__inner__"]
+      qv = res["q_inner"].get(cfg["name"], {})
+      want_b = sides.get("backward_layer", sides["layer"])[0]
+      for side, want in (("layer", sides["layer"][0]), ("backward_layer", want_b)):
+        got = qv.get(side, {}).get("class")
+        if got != want:
+          run.violate("selected_class", dict(lkey, inner=side, where="runtime",
+                                             explicit_backward="backward_layer" in cfg, got=got),
+                      dict(ldet, expected=want, runtime=qv), mirrored=mirrored)
+      if "backward_layer" not in cfg and qv and qv["layer"]["class"] == qv["backward_layer"]["class"]:
+        run.count("clause_selected_bidir_derived_backward")
+        if qv["layer"]["quant"] != qv["backward_layer"]["quant"]:
+          run.violate("selected_quantizer", dict(lkey, inner="derived backward_layer", where="runtime"),
+                      dict(ldet, runtime=qv), mirrored=mirrored)
+        if qv["backward_layer"]["go_backwards"] == qv["layer"]["go_backwards"]:
+          run.violate("hyperparams", dict(lkey, inner="derived backward_layer", key="go_backwards",
+                                          where="runtime"), dict(ldet, runtime=qv), mirrored=mirrored)
     # hyper-parameters: everything outside the quantizer keys is what it was
     for k, v in cfg.items():
       if k in written or k in dels:   # the ReLU-specific keys are removed on purpose (checked below)
@@ -1098,13 +1274,34 @@ def check_quant(run, lkey, ldet, mirrored, qcls, cfg, acfg, qcfg, qvals, dels):
   qvals = dict(qvals)
   inner = qvals.pop("__inner__", None)
   if inner is not None:
-    icls, iq = inner
-    for side in ("layer",) + (("backward_layer",) if "backward_layer" in cfg else ()):
-      if acfg[side]["class_name"] != icls or qcfg[side]["class_name"] != icls:
-        run.violate("selected_class", dict(lkey, inner=side), ldet, mirrored=mirrored)
+    # a wrapper: the explicit backward layer exists afterwards iff it existed before, and every
+    # direction is judged as a recurrent layer of its own
+    for side in ("layer", "backward_layer"):
+      for where, c in (("rewritten json", acfg), ("converted model", qcfg)):
+        if (side in c) != (side in cfg):
+          run.violate("hyperparams", dict(lkey, key=side, where=where,
+                                          what="appeared" if side in c else "dropped"), ldet, mirrored=mirrored)
+    for side, (icls, iq) in inner.items():
+      if side not in acfg or side not in qcfg:
         continue
-      check_quant(run, dict(lkey, inner=side), ldet, mirrored, icls, cfg[side]["config"],
-                  acfg[side]["config"], qcfg[side]["config"], iq, [])
+      skey = dict(lkey, inner=side, inner_class=cfg[side]["class_name"],
+                  own_name=cfg[side]["config"]["name"] != cfg["layer"]["config"]["name"])
+      if acfg[side]["class_name"] != icls or qcfg[side]["class_name"] != icls:
+        run.violate("selected_class", dict(skey, got=acfg[side]["class_name"]),
+                    dict(ldet, expected=icls, got_json=acfg[side]["class_name"],
+                         got_model=qcfg[side]["class_name"]), mirrored=mirrored)
+        continue
+      run.count("clause_selected_bidir_" + side)
+      icfg = cfg[side]["config"]
+      check_quant(run, skey, ldet, mirrored, icls, icfg, acfg[side]["config"], qcfg[side]["config"], iq, [])
+      # hyper-parameters of the wrapped layer (name, units, go_backwards, return_sequences, ...)
+      for k, v in icfg.items():
+        if k in QKEYS["rnn"]:
+          continue
+        if acfg[side]["config"].get(k, "<absent>") != v:
+          run.violate("hyperparams", dict(skey, key=k, where="rewritten json"), ldet, mirrored=mirrored)
+        if k not in QCLASS_OWN and qcfg[side]["config"].get(k, "<absent>") != v:
+          run.violate("hyperparams", dict(skey, key=k, where="converted model"), ldet, mirrored=mirrored)
     return
   bad = False
   for k, v in qvals.items():
